@@ -4,6 +4,7 @@ CONSTANTS
   Hi <- LoDef
   Stride = 1
   MaxRules = 2
+  Wide = FALSE
   Late = 0
 INVARIANTS ExprHintSound
 CHECK_DEADLOCK FALSE
